@@ -7,6 +7,8 @@ import (
 	"go/types"
 	"sort"
 	"strings"
+
+	"golang.org/x/tools/go/ssa"
 )
 
 func init() {
@@ -26,11 +28,12 @@ type actxFnResult struct {
 }
 
 type actxAnalysis struct {
-	m       *actxPkg
-	res     map[*types.Func]*actxFnResult
-	sites   map[*types.Func][]actxSite
-	res2    map[*types.Func]*actxFnResult // phase 2 (clobbering callees applied)
-	clobber map[*types.Func]map[*types.Var]bool
+	m        *actxPkg
+	res      map[*types.Func]*actxFnResult
+	sites    map[*types.Func][]actxSite
+	res2     map[*types.Func]*actxFnResult // phase 2 (clobbering callees applied)
+	clobber  map[*types.Func]map[*types.Var]bool
+	initVals map[*types.Var]string // initial (literal / zero) value of each context field
 }
 
 var actxAnalysisCache = map[string]*actxAnalysis{}
@@ -153,8 +156,9 @@ func (a *actxAnalysis) judge(r *actxFnResult, f *types.Var) (written bool, v act
 			}
 			continue
 		}
+		owed, owedWhy := a.restoreOwed(r.fn, e.st, f, val)
 		switch {
-		case !val.dirty:
+		case !val.dirty && !owed:
 			emitN++
 		case e.errExit && !m.catchable[r.fn]:
 			exemptN++
@@ -169,11 +173,18 @@ func (a *actxAnalysis) judge(r *actxFnResult, f *types.Var) (written bool, v act
 			if val.why != "" {
 				w += "; " + val.why
 			}
+			if owedWhy != "" && !val.dirty {
+				w += "; " + owedWhy
+			}
 			consts = append(consts, fmt.Sprintf("%s [%s]", w, actxPathStr(e.st)))
 		case val.kind == avAmbig:
 			viol = append(viol, fmt.Sprintf("%s after a setter whose effect is path dependent: %s [%s; %s]", m.fieldName(f), val, actxPathStr(e.st), where))
 		default:
-			comps = append(comps, fmt.Sprintf("%s is %s at %s [%s]", m.fieldName(f), val, where, actxPathStr(e.st)))
+			w := where
+			if owedWhy != "" && !val.dirty {
+				w += "; " + owedWhy
+			}
+			comps = append(comps, fmt.Sprintf("%s is %s at %s [%s]", m.fieldName(f), val, w, actxPathStr(e.st)))
 		}
 	}
 	if !written {
@@ -366,6 +377,7 @@ func ruleCtxRestore(c *Ctx) []Obligation {
 		for _, f := range m.sortedCtx() {
 			out = append(out, Obligation{Key: rel + "|context field|" + m.fieldName(f), Pos: c.Pos(f.Pos()), Status: Info, Detail: "discovered: " + strings.Join(m.ctx[f].evidence, "; ")})
 		}
+		out = append(out, actxSwitchOrder(c, a)...)
 		var fns []*types.Func
 		for fn := range a.res {
 			fns = append(fns, fn)
@@ -909,4 +921,303 @@ func actxParamIndex(m *actxPkg, fn *types.Func, id *ast.Ident) int {
 		}
 	}
 	return -1
+}
+
+// restoreOwed: a function may hand a context field back changed without any
+// dependent call after the write — that is how setters and signals work (a
+// `break` raises the termination mark, a leaf setter installs a value) — and
+// such an exit is normally left to the callers. Two typestate conditions make
+// the exit owe a restore all the same:
+//
+//  1. the function holds a local into which it saved the entry value of the
+//     field (or of a field that the same leaf setter writes together with it):
+//     a function that saves intends to put the value back on every way out;
+//  2. the value left behind is the field's initial value (the zero value / the
+//     value of the creating composite literal): that lowers a signal instead
+//     of raising it. Only the owner of the scope may do that, by writing back
+//     what it saved — anything seen before the call is erased otherwise.
+//
+// Leaf setters are exempt (they are interpreted at their call sites and the
+// caller is judged).
+func (a *actxAnalysis) restoreOwed(fn *types.Func, st *actxState, f *types.Var, val actxVal) (bool, string) {
+	m := a.m
+	if m.inlinable[fn] || val.gen != 0 {
+		return false, ""
+	}
+	// (1) a save local of f / of a co-set field
+	saved := map[*types.Var]bool{}
+	for _, l := range st.locals {
+		if l.kind == alSave && l.f != nil {
+			if sv, ok := l.snap[l.f]; ok && sv.atEntry() {
+				saved[l.f] = true
+			}
+		}
+	}
+	if len(saved) > 0 {
+		if saved[f] {
+			return true, "the entry value was saved into a local but is not written back on this way out"
+		}
+		for _, g := range m.order {
+			if !m.inlinable[g] {
+				continue
+			}
+			ps := m.paramSet[g]
+			if _, sets := ps[f]; !sets {
+				continue
+			}
+			var names []string
+			for sf := range ps {
+				if saved[sf] {
+					names = append(names, m.fieldName(sf))
+				}
+			}
+			if len(names) > 0 {
+				sort.Strings(names)
+				return true, fmt.Sprintf("the entry value of %s (set together with it by %s) was saved into a local but is not handed back to %s on this way out", names[0], g.Name(), g.Name())
+			}
+		}
+	}
+	// (2) reset to the initial value
+	if val.kind == avConst && val.delta == 0 {
+		if init, ok := a.initialValue(f); ok && init == val.k {
+			return true, fmt.Sprintf("the field is reset to its initial value %s without having been saved: whatever was signalled before this call is erased", init)
+		}
+	}
+	return false, ""
+}
+
+// initialValue: the constant a context field starts with: the value given in
+// the composite literals of its owner type inside the package when they agree,
+// else the zero value of its type.
+func (a *actxAnalysis) initialValue(f *types.Var) (string, bool) {
+	m := a.m
+	if a.initVals == nil {
+		a.initVals = map[*types.Var]string{}
+		lit := map[*types.Var]map[string]bool{}
+		for _, fn := range m.order {
+			ast.Inspect(m.decls[fn].Body, func(n ast.Node) bool {
+				cl, ok := n.(*ast.CompositeLit)
+				if !ok {
+					return true
+				}
+				t := m.info.TypeOf(cl)
+				if t == nil {
+					return true
+				}
+				named, _ := t.(*types.Named)
+				if named == nil {
+					return true
+				}
+				for _, el := range cl.Elts {
+					kv, ok := el.(*ast.KeyValueExpr)
+					if !ok {
+						continue
+					}
+					kid, ok := kv.Key.(*ast.Ident)
+					if !ok {
+						continue
+					}
+					fv, _ := m.info.Uses[kid].(*types.Var)
+					if fv == nil || m.ctx[fv] == nil {
+						continue
+					}
+					v := "?"
+					if tv := m.info.Types[kv.Value]; tv.Value != nil {
+						v = tv.Value.String()
+					} else if id, ok := ast.Unparen(kv.Value).(*ast.Ident); ok && id.Name == "nil" {
+						v = "nil"
+					}
+					if lit[fv] == nil {
+						lit[fv] = map[string]bool{}
+					}
+					lit[fv][v] = true
+				}
+				return true
+			})
+		}
+		for fv := range m.ctx {
+			if vs := lit[fv]; len(vs) == 1 {
+				for v := range vs {
+					if v != "?" {
+						a.initVals[fv] = v
+					}
+				}
+				continue
+			} else if len(vs) > 1 {
+				continue
+			}
+			switch t := fv.Type().Underlying().(type) {
+			case *types.Basic:
+				switch {
+				case t.Info()&types.IsBoolean != 0:
+					a.initVals[fv] = "false"
+				case t.Info()&types.IsNumeric != 0:
+					a.initVals[fv] = "0"
+				case t.Info()&types.IsString != 0:
+					a.initVals[fv] = `""`
+				}
+			case *types.Pointer, *types.Slice, *types.Map, *types.Interface:
+				a.initVals[fv] = "nil"
+			}
+		}
+	}
+	v, ok := a.initVals[f]
+	return v, ok
+}
+
+// actxSwitchOrder: order around a context switch. A function that installs
+// another instance of the context (a leaf setter that points an owner field —
+// the current module — at the instance named by its argument) on behalf of a
+// value V (the setter's argument is a field of V: `switchModule(fn.Module)`)
+// acts for V from the switch on. Every call that consults the switched context
+// (reads the owner field or one of its member fields: scope lookups) with data
+// that also comes from V (names owned by the callee: its extracted singletons,
+// its globals) must therefore not be executed before the switch: no path may
+// run such a call first and the switch afterwards — the name would be resolved
+// in the module of the caller. Calls fed from other data (the argument
+// expressions of the call, evaluated in the caller's module) are free.
+func actxSwitchOrder(c *Ctx, a *actxAnalysis) []Obligation {
+	m := a.m
+	c.SSA()
+	var out []Obligation
+	// leaf setters that switch an owner field from a parameter
+	type swInfo struct {
+		idx   int
+		owner *types.Var
+	}
+	switchers := map[*ssa.Function]swInfo{}
+	run := &actxRun{m: m}
+	for _, g := range m.order {
+		if !m.inlinable[g] {
+			continue
+		}
+		for f, idx := range m.paramSet[g] {
+			if idx >= 0 && len(run.members(f)) > 0 {
+				if sf := c.Prog.FuncValue(g); sf != nil {
+					if old, had := switchers[sf]; !had || m.fieldName(f) < m.fieldName(old.owner) {
+						switchers[sf] = swInfo{idx, f}
+					}
+				}
+			}
+		}
+	}
+	if len(switchers) == 0 {
+		return nil
+	}
+	consults := func(h *types.Func, owner *types.Var) bool {
+		if m.inlinable[h] && len(m.paramSet[h]) > 0 {
+			return false // a setter, not a lookup
+		}
+		if m.touch[owner][h] {
+			return true
+		}
+		for _, mf := range run.members(owner) {
+			if m.touch[mf][h] {
+				return true
+			}
+		}
+		return false
+	}
+	for _, fn := range m.order {
+		sf := c.Prog.FuncValue(fn)
+		if sf == nil || sf.Blocks == nil {
+			continue
+		}
+		fr := actxNewFrame(sf, nil, 0)
+		nsw := 0
+		for _, b := range sf.Blocks {
+			for _, ins := range b.Instrs {
+				sc, ok := ins.(ssa.CallInstruction)
+				if !ok {
+					continue
+				}
+				g := sc.Common().StaticCallee()
+				sw, isSw := switchers[g]
+				if !isSw {
+					continue
+				}
+				ai := sw.idx
+				if g.Signature.Recv() != nil {
+					ai++
+				}
+				if ai >= len(sc.Common().Args) {
+					continue
+				}
+				as := fr.sym(sc.Common().Args[ai])
+				if actxUnknownSym(as) || !strings.HasPrefix(as, "$") {
+					continue
+				}
+				cut := strings.LastIndex(as, ".")
+				if cut < 0 || strings.HasSuffix(as, ")") {
+					continue
+				}
+				base := as[:cut]
+				if !strings.Contains(strings.TrimPrefix(base, "$"+sf.Name()), ".") {
+					continue // a plain parameter, not a field of a value
+				}
+				if sf.Signature.Recv() != nil && len(sf.Params) > 0 {
+					if rs := fr.sym(sf.Params[0]); base == rs || strings.HasPrefix(base, rs+".") {
+						continue // taken from the context itself (a saved value being put back), not from a value the function acts for
+					}
+				}
+				nsw++
+				key := fmt.Sprintf("%s|%s|names owned by the switched-to instance are resolved after the switch", m.fname(fn), m.fieldName(sw.owner))
+				if nsw > 1 {
+					key += fmt.Sprintf(" #%d", nsw)
+				}
+				ob := Obligation{Key: key, Pos: c.Pos(ins.Pos()), Nontrivial: true}
+				var early []string
+				nlook := 0
+				for _, b2 := range sf.Blocks {
+					for _, i2 := range b2.Instrs {
+						lc, ok := i2.(ssa.CallInstruction)
+						if !ok || i2 == ins {
+							continue
+						}
+						h := lc.Common().StaticCallee()
+						if h == nil || h.Object() == nil {
+							continue
+						}
+						ho, _ := h.Object().(*types.Func)
+						if ho == nil || m.decls[ho] == nil || !consults(ho, sw.owner) {
+							continue
+						}
+						fed := false
+						for _, arg := range lc.Common().Args {
+							if s := fr.sym(arg); s == base || strings.HasPrefix(s, base+".") || strings.HasPrefix(s, base+"[") {
+								fed = true
+							}
+						}
+						if !fed {
+							continue
+						}
+						nlook++
+						before := false
+						if b2 == b {
+							before = actxInstrIndex(i2) < actxInstrIndex(ins)
+						}
+						if !before && b2 != b && actxReach(b2)[b] {
+							before = true
+						}
+						if b2 == b && !before {
+							// same block after the switch; a loop back to the block would also run it before the next switch: ignore
+						}
+						if before {
+							early = append(early, fmt.Sprintf("%s at %s", h.Name(), c.Pos(i2.Pos())))
+						}
+					}
+				}
+				if len(early) > 0 {
+					sort.Strings(early)
+					ob.Status = Violated
+					ob.Detail = fmt.Sprintf("%s consults %s with data of %s before %s(%s) has switched to its instance: the name is resolved in the instance that is current at the call (the caller's module), not in the one the value belongs to", strings.Join(actxUniq(early), ", "), m.fieldName(sw.owner), base, g.Name(), as)
+				} else {
+					ob.Status = Discharged
+					ob.Detail = fmt.Sprintf("%d call(s) that consult %s with data of %s: none can run before %s(%s)", nlook, m.fieldName(sw.owner), base, g.Name(), as)
+				}
+				out = append(out, ob)
+			}
+		}
+	}
+	return out
 }
